@@ -1,6 +1,7 @@
 //! `h3run`: executes case lines against the real hyperium/h3 code in-process and prints one
 //! canonical result line per case (the Lean driver `h3drv` prints the model's and the
 //! specification's answer for the same lines).
+mod e_c02;
 mod e_c16;
 mod e_c18;
 mod sim;
@@ -12,6 +13,7 @@ fn dispatch(w: &[&str]) -> String {
     match w.first().copied() {
         Some("varint") | Some("sid") => e_c16::handle(w),
         Some("dgram") => e_c18::handle(w),
+        Some("frame") | Some("fs") => e_c02::handle(w),
         _ => "bad-op".into(),
     }
 }
